@@ -241,5 +241,5 @@ def run(chk):
 					if not chk.mine(idx):
 						continue
 					chk.case("structural", {"rows": r, "cols": c, "op": op, "key": key, "seed": rng.randrange(10**9)}, "structural")
-	for i in range(150 if chk.quick() else 1500):
+	for i in range(150 if chk.quick() else 400):
 		chk.case("history", {"seed": rng.randrange(10**9), "nsteps": rng.choice([15, 30]) if chk.quick() else rng.choice([15, 30, 60]), "profile": rng.choice(["tables", "tables", "mixed"])}, "history")
